@@ -195,13 +195,26 @@ class MapDecoder:
         if seen_local is None:
             return
         self.seen_local = seen_local
+        contains_sites = []
         for bb, t in fn.calls():
             if callee_path(t) == SET_CONTAINS and bb in body:
                 a0 = pv._borrowed_lvalue(t["args"][0], bb)
                 a1 = pv.operand_term(t["args"][1], bb, "term")
                 a1 = a1[1] if a1[0] == "ref" else a1
                 if a0 == ("local", seen_local, fn.local_name(seen_local)) and a1 == self.LABEL:
-                    self.dup["contains_bb"] = bb
+                    contains_sites.append(bb)
+        # the lookup that guards the duplicate error (a later `debug_assert!(seen.contains(&label))` is another lookup)
+        guarding = []
+        for o in outcomes(fn, pv):
+            if o["kind"] == "err" and o["inner"][0] == "aggr" and o["inner"][2] == "DuplicateMapKey":
+                for c in o["conds"]:
+                    nb = normalize_bool_cond(c)
+                    if nb and is_call(nb[0], SET_CONTAINS) and nb[1] is True and nb[0][3][1] in contains_sites:
+                        guarding.append(nb[0][3][1])
+        if guarding:
+            self.dup["contains_bb"] = guarding[0]
+        elif contains_sites:
+            self.dup["contains_bb"] = contains_sites[0]
         # where is `seen` created, is it ever reassigned / cleared inside the loop
         for di, d in enumerate(pv._defs):
             if d[0] == seen_local:
@@ -585,9 +598,15 @@ class MapEncoder:
                     self.const_inserts.append((k, e["bb"], conditions(fn, pv, e["bb"]), e["place"][1]))
         self.set_created_in_loop = False
         self.set_reset = False
+        self.set_starts_empty = True
         for di, d in enumerate(pv._defs):
             if d[0] in self.sets and fn.cfg.in_loop(d[1]):
                 self.set_created_in_loop = True
+            if d[0] in self.sets:
+                dt = pv.def_term(di)
+                if not (is_call(dt) and (dt[1].startswith("alloc::collections::btree::set::BTreeSet::<T>::new")
+                                         or dt[1] == "core::default::Default::default") and not dt[2]):
+                    self.set_starts_empty = False      # `[ALG, CRIT, ..].iter().cloned().collect()`: labels spoken for in advance
         for e in pv.effects():
             if e["kind"] == "call" and e["place"][0] == "local" and e["place"][1] in self.sets \
                     and e["callee"] not in (SET_INSERT, SET_CONTAINS):
